@@ -4,6 +4,7 @@ CONSTANTS
   Variants = {"A", "B"}
   MetaKeys = {"d", "l"}
   Values = {"x", "y"}
+  AtomicSave = TRUE
   DropStaleIndex = FALSE
 INVARIANTS HashLookupExact SavedRetrievable
 PROPERTIES HeightOnlyGrows
